@@ -21,7 +21,8 @@ RULE = ("Hypothesis-generated cases for all 18 classes, three kinds. (a) inbound
         "insert, +=} at root/nested/depth-3 targets, unbuffered and - for buffered classes - inside a "
         "buffered context; afterwards EVERY container reachable from the argument is mutated in place; "
         "the object's (), a fresh object's () and the independently read resource must be unchanged. "
-        "(b) outbound: the results of (), values(), items(), get/[] , pop, popitem, del-after-get and "
+        "The argument may contain tuples, and (kind 'repeated') the SAME container object at several "
+        "positions, which must end up as independent copies. (b) outbound: the results of (), values(), items(), get/[] , pop, popitem, del-after-get and "
         "list slices are checked to be built-in dict/list/scalars at every depth (for (), values(), "
         "items()) and every container reachable from them is mutated (plain data in place; removed "
         "synced children through their API); nothing may change. (c) cross-assignment: a synced root "
@@ -332,6 +333,79 @@ def case_cross(c):
         shutil.rmtree(d, ignore_errors=True)
 
 
+def case_repeated(c):
+    """The SAME container object sits at several positions of one argument: after storing it every
+    position must be an independent copy (a write through one position leaves the others alone)."""
+    ci = CLASSES[c["class"]]
+    inner = dec(c["inner"])
+    shape = c["shape"]
+    buffered = c.get("buffered") and ci.buffered
+    d = wm.case_dir()
+    reset_class_state()
+    try:
+        res, obj = _setup(ci, d, {} if ci.kind == "dict" else [])
+        row = copy.deepcopy(inner)
+        if shape == "list2":
+            arg = [row, row]
+        elif shape == "list3":
+            arg = [row] * 3
+        elif shape == "dict2":
+            arg = {"a": row, "b": row}
+        elif shape == "nested":
+            arg = [[row], {"k": row}]
+        else:
+            arg = (row, [row])
+        ctx = None
+        if buffered:
+            ctx = obj.buffered
+            ctx.__enter__()
+        if ci.kind == "dict":
+            if c.get("via") == "update":
+                obj.update({"v": arg})
+            else:
+                obj["v"] = arg
+            stored = lambda: obj["v"]  # noqa: E731
+            model = {"v": copy.deepcopy(arg)}
+            mstored = model["v"]
+        else:
+            if c.get("via") == "update":
+                obj.extend([arg])
+            else:
+                obj.append(arg)
+            stored = lambda: obj[0]  # noqa: E731
+            model = [copy.deepcopy(arg)]
+            mstored = model[0]
+        from ..plain import norm
+        model = norm(model)
+        mstored = model["v"] if ci.kind == "dict" else model[0]
+
+        def first(x):
+            # path to the first occurrence of the repeated container inside the stored value
+            if shape in ("list2", "list3"):
+                return x[0]
+            if shape == "dict2":
+                return x["a"]
+            if shape == "nested":
+                return x[0][0]
+            return x[0]
+        tgt, mtgt = first(stored()), first(mstored)
+        if isinstance(mtgt, dict):
+            tgt["__one__"] = 1
+            mtgt["__one__"] = 1
+        else:
+            tgt.append("__one__")
+            mtgt.append("__one__")
+        _same("repeated_object_positions_alias_each_other", obj(), model, shape=shape)
+        if ctx is not None:
+            ctx.__exit__(None, None, None)
+        _same("repeated_object_backend", res.read(), model, shape=shape)
+        _same("repeated_object_fresh", res.make(ci)(), model, shape=shape)
+        return True
+    finally:
+        reset_class_state()
+        shutil.rmtree(d, ignore_errors=True)
+
+
 def _has_dot(v):
     if isinstance(v, dict):
         return any("." in k or _has_dot(x) for k, x in v.items())
@@ -347,6 +421,8 @@ def run_case(c):
         return True
     if k == "outbound":
         return case_outbound(c)
+    if k == "repeated":
+        return case_repeated(c)
     return case_cross(c)
 
 
@@ -374,10 +450,22 @@ def run_shard(spec, seed, tier, active):
 
     def one(data):
         draw = data.draw
-        kind = draw(st.sampled_from(["inbound", "inbound", "outbound", "outbound", "cross"]))
+        kind = draw(st.sampled_from(["inbound", "inbound", "outbound", "outbound", "cross", "repeated"]))
+        if kind == "repeated":
+            inner = draw(st.one_of(dom.lists(3), dom.dicts(3)))
+            c = {"kind": kind, "class": ci.name, "inner": enc(inner),
+                 "shape": draw(st.sampled_from(["list2", "list3", "dict2", "nested", "tuple"])),
+                 "via": draw(st.sampled_from(["setitem", "update"])), "buffered": draw(st.booleans())}
+            try:
+                run_case(c)
+            except Mismatch as mm:
+                raise CaseFailure(dict(c, property=ID, engine="c16"), mm.describe())
+            acc.case([h64(ci.name, kind, c["shape"], c["via"], bool(c["buffered"] and ci.buffered))], c,
+                     {f"kind={kind}": 1, f"repeated.{c['shape']}": 1})
+            return
         if kind == "inbound":
             e, t, w = draw(st.sampled_from(cs))
-            val = draw(dom.containers(max_leaves=8))
+            val = gen.tupled(draw, draw(dom.containers(max_leaves=8)), p=0.3)
             c = {"kind": kind, "class": ci.name, "entry": e, "target": t, "want": w,
                  "value": enc(val), "buffered": draw(st.booleans()),
                  "ctx": draw(st.sampled_from(["obj", "cls"]))}
